@@ -533,14 +533,31 @@ class Chopper:
         npulses:
             Number of pulses to rotate the chopper for.
         """
-        tpulse = 1.0 / pulse_frequency
-        topen = disk_chopper.time_offset_open(pulse_frequency=pulse_frequency)
-        tclose = disk_chopper.time_offset_close(pulse_frequency=pulse_frequency)
-        offsets = sc.arange('pulse', npulses) * tpulse
+        # Raises if the chopper is not in phase with the source.
+        disk_chopper._source_phase_factor(pulse_frequency)
+        # The disk keeps rotating uniformly from pulse to pulse. So cover `npulses`
+        # pulse periods with whole chopper rotations instead of repeating the openings
+        # of a single pulse; the latter duplicates the openings at pulse boundaries
+        # and misplaces openings of choppers that are slower than the source.
+        ratio = abs(disk_chopper.frequency) / pulse_frequency.to(
+            unit=disk_chopper.frequency.unit
+        )
+        n_rotations = max(int(np.ceil(npulses * ratio.value - 1e-6)), 1)
+        if disk_chopper.is_clockwise:
+            open_edges, close_edges = disk_chopper.slit_begin, disk_chopper.slit_end
+        else:
+            open_edges, close_edges = disk_chopper.slit_end, disk_chopper.slit_begin
+        topen = disk_chopper.time_offset_angle_at_beam(
+            angle=open_edges, n_repetitions=n_rotations
+        )
+        tclose = disk_chopper.time_offset_angle_at_beam(
+            angle=close_edges, n_repetitions=n_rotations
+        )
+        unit = (1.0 / pulse_frequency).unit
         return cls(
             distance=sc.norm(disk_chopper.axle_position),
-            time_open=(offsets + topen).flatten(to=topen.dim),
-            time_close=(offsets + tclose).flatten(to=tclose.dim),
+            time_open=topen.to(unit=unit, copy=False),
+            time_close=tclose.to(unit=unit, copy=False),
         )
 
 
